@@ -15,6 +15,7 @@ RULE = ("the full configuration cross product {scale} x {no/some/all-but-one "
         "non-trivial = returned point has positive true violation / NaN-inf "
         "involved / an active constraint; distinct = cell x status")
 RULE += ("  Also: limits of mixed magnitudes inside one constraint object (a narrow two-sided component next to limits of 1e4..1e300).")
+RULE += (" General problems restated in variables of unit 1e-14..1e-9 / 1e6..1e9.")
 ASSUMPTIONS = [
     "true maxcv recomputed by the harness in user variables from the user's "
     "objects and the raw values its spies logged",
@@ -104,6 +105,13 @@ def make_spec(case):
                        fun_none=0.15, maxfev=(20, 120))
     if spec["con_kind"] != "none" and rng.random() < 0.15:
         gen.mixmag(rng, spec)
+    elif rng.random() < 0.2 and not spec.get("faults"):
+        # the same problem in variables of unit 1e-13..1e-9 (or 1e6..1e9):
+        # consecutive points differ by far less than 1e-13 in absolute terms
+        # and are still different points with their own values
+        spec.pop("scribble", None)
+        gen.tinyvars(spec, float(10.0 ** rng.choice(
+            [-14, -13, -12, -10, -9, 6, 9])))
     return spec
 
 
